@@ -47,6 +47,7 @@ type Entry struct {
 	Ref       *Ref // Call / DeferCall
 	Loop      []string
 	LoopVar   bool // render Loop as for: {var: LV<k>} over a task variable holding the items (split on spaces, or on ',' with split:)
+	AsX       bool // (Probe loops over a variable only) the iterator is called X, like the variable the call passes: inside the loop {{.X}} is the item, after it the call's X again
 	// Matrix, if non-nil, replaces Loop: ordered keys with their values; the loop body
 	// receives "{{.ITEM.K1}}-{{.ITEM.K2}}" as its item text.
 	Matrix    []MatrixRow
@@ -276,10 +277,14 @@ func forClause(e *Entry) (string, string) {
 	}
 	if e.Loop != nil {
 		if e.LoopVar {
-			if len(e.Loop)%2 == 0 {
-				return fmt.Sprintf("for: {var: LV%d, split: ','}", e.loopVarID), "{{.ITEM}}"
+			as, it := "", "{{.ITEM}}"
+			if e.AsX {
+				as, it = ", as: X", "{{.X}}"
 			}
-			return fmt.Sprintf("for: {var: LV%d}", e.loopVarID), "{{.ITEM}}"
+			if len(e.Loop)%2 == 0 {
+				return fmt.Sprintf("for: {var: LV%d, split: ','%s}", e.loopVarID, as), it
+			}
+			return fmt.Sprintf("for: {var: LV%d%s}", e.loopVarID, as), it
 		}
 		var vs []string
 		for _, v := range e.Loop {
